@@ -37,7 +37,8 @@ def run(ctx):
                 "and SqliteStateStore; distinct key = (store, op kinds, observed segment order)")
     ctx.prove()
     ctx.partial.append("asyncio.Lock = the FIFO model of Model/StateSchedFifo.v is checked by replay on every run, not "
-                       "proved against asyncio; waiter cancellation and clear() are not covered")
+                       "proved against asyncio; waiter cancellation is covered by an implementation-side monitor only (a writer cancelled "
+                       "while waiting for the lock), clear() is not covered")
     ctx.trusted.append("asyncio runs the code between two await points atomically (single-threaded event loop)")
     S.check_pools()
     for nme in ("n",):
@@ -84,6 +85,24 @@ def run(ctx):
                         dict(kind="implementation-monitor", store=store, initial=S.jsonable(init), ops=S.jsonable(ops),
                              driver_schedule=sched, observed_segment_order=log, detail=S.jsonable(detail),
                              replay_hint="bin/check C20 --replay <this file> re-runs ops under driver_schedule"))
+        # a writer cancelled while it waits for the store lock (monitor only; the interleaving model has no cancellation)
+        ncc, waited = ctx.n(40, 400), 0
+        for i in range(ncc):
+            init, _, _ = K.gen_case(rng, 2 * i + 1)
+            cls = S.BY_CHAIN[tuple(init[0])]
+            for store, mk in (("memory", lambda: InMemoryStateStore(cls())), ("sqlite", lambda: env.fresh_sql(cls)[0])):
+                why, facts = K.cancel_case(rng, mk, init)
+                waited += 1 if facts["waited"] else 0
+                ctx.count(1, ("cancel", store, facts["b"][0], i))
+                if why:
+                    ctx.violation("C20 fails on the real code: %s store: %s" % (store, why),
+                                  dict(kind="implementation-monitor", store=store, initial=S.jsonable(init),
+                                       scenario="edit block A suspended; writer B waits for the lock and is cancelled; writer C; A finishes",
+                                       A=S.jsonable(facts["a"]), B=S.jsonable(facts["b"]), C=S.jsonable(facts["c"])))
+                    break
+        ctx.programs += 2 * ncc
+        ctx.suite("statesched.cancelled_waiter", cases=2 * ncc, waiters_cancelled_while_waiting=waited)
+        ctx.require_coverage("statesched.cancelled_waiter", "waiters_cancelled_while_waiting", waited, 20)
     finally:
         env.close()
         shutil.rmtree(dbdir, ignore_errors=True)
